@@ -17,6 +17,7 @@
 (*   ifret  c x                 if c { return x }      (early return)      *)
 (*   loop   n op x y            v := x; for i := 0; i < n; i++ { v = v op y}*)
 (*   arr    x y z / idx A i / aset A i x      arrays of three elements     *)
+(*   mat x y z w / midx M i j / mset M i j x   a 2 x 2 array of arrays      *)
 (*   asetl A i c / fsetl S k c                 a literal stored into an     *)
 (*                                             element / a field            *)
 (*   call   f x y -> (v, v+1)   a helper with two results                  *)
@@ -115,6 +116,7 @@ VARIABLES prog,     \* [ta, tb, stmts, ret]
 vars == <<prog, phase>>
 
 ArrT(t) == <<"a", t>>
+MatT(t) == <<"m", t>>
 StructT(t1, t2) == <<"s", t1, t2>>
 
 \* static type of every variable
@@ -132,6 +134,9 @@ TypesOf(p, n) ==   \* sequence of the types of variables 1..2+n
                     [] s.k = "arr" -> <<ArrT(ts[s.x])>>
                     [] s.k = "idx" -> <<ts[s.x][2]>>
                     [] s.k \in {"aset", "asetl"} -> <<ts[s.x]>>
+                    [] s.k = "mat" -> <<MatT(ts[s.x])>>
+                    [] s.k = "midx" -> <<ts[s.x][2]>>
+                    [] s.k = "mset" -> <<ts[s.x]>>
                     [] s.k = "call" -> <<ts[s.x], ts[s.x]>>
                     [] s.k = "mk" -> <<StructT(ts[s.x], ts[s.y])>>
                     [] s.k = "fld" -> <<ts[s.x][s.c + 1]>>
@@ -153,6 +158,7 @@ AddStmt ==
            bools == {v \in V : ts[v] = BT}
            arrs == {v \in V : ts[v][1] = "a"}
            structs == {v \in V : ts[v][1] = "s"}
+           mats == {v \in V : ts[v][1] = "m"}
            add(s) == prog' = [prog EXCEPT !.stmts = Append(@, s)]
        IN \/ "const" \in Kinds /\ \E t \in IntTypes : \E c \in {0, 1, 2, Pow2(W(t)) - 1, Pow2(W(t) - 1)} :
                 add(S("const", 0, 0, 0, "", t, c % Pow2(W(t))))
@@ -187,6 +193,12 @@ AddStmt ==
           \* a literal stored into an element / a field (an untyped constant meets a narrower destination)
           \/ "arr" \in Kinds /\ \E a \in arrs : \E i \in 0..2 : \E c \in {0, 1, 3} :
                 add(S("asetl", a, 0, c, "", <<>>, i))
+          \* a 2 x 2 matrix [[x, y], [z, w]] (c = w), read and updated at [i][j] (c = 2 i + j)
+          \/ "mat" \in Kinds /\ \E x \in ints : \E y \in {v \in ints : ts[v] = ts[x]} : \E z \in {v \in ints : ts[v] = ts[x]} :
+                \E w \in {v \in ints : ts[v] = ts[x]} : add(S("mat", x, y, z, "", <<>>, w))
+          \/ "mat" \in Kinds /\ \E m \in mats : \E ij \in 0..3 : add(S("midx", m, 0, 0, "", <<>>, ij))
+          \/ "mat" \in Kinds /\ \E m \in mats : \E ij \in 0..3 : \E x \in {v \in ints : ts[v] = ts[m][2]} :
+                add(S("mset", m, x, 0, "", <<>>, ij))
           \/ "call" \in Kinds /\ \E x \in ints : \E y \in {v \in ints : ts[v] = ts[x]} : add(S("call", x, y, 0, "", <<>>, 0))
           \/ "struct" \in Kinds /\ \E x \in ints : \E y \in ints : add(S("mk", x, y, 0, "", <<>>, 0))
           \/ "struct" \in Kinds /\ \E s \in structs : \E k \in 1..2 : add(S("fld", s, 0, 0, "", <<>>, k))
@@ -245,6 +257,9 @@ Exec(p, i, env) ==
                   [] s.k = "idx" -> <<x.v[s.c + 1]>>
                   [] s.k = "aset" -> <<[x EXCEPT !.v[s.c + 1] = y]>>
                   [] s.k = "asetl" -> <<[x EXCEPT !.v[s.c + 1] = Wrap(x.t[2], s.z)]>>
+                  [] s.k = "mat" -> <<[t |-> MatT(x.t), v |-> <<<<x, y>>, <<env[s.z], env[s.c]>>>>]>>
+                  [] s.k = "midx" -> <<x.v[(s.c \div 2) + 1][(s.c % 2) + 1]>>
+                  [] s.k = "mset" -> <<[x EXCEPT !.v[(s.c \div 2) + 1][(s.c % 2) + 1] = y]>>
                   [] s.k = "call" -> <<Bin("+", x, y), Bin("-", x, y)>>
                   [] s.k = "mk" -> <<[t |-> StructT(x.t, y.t), v |-> <<x, y>>]>>
                   [] s.k = "fld" -> <<x.v[s.c]>>
